@@ -62,6 +62,7 @@ type World struct {
 	Reconciles     int
 	Cmds           int
 	LettersSeen    []byte
+	Migrated       bool // a migration from the DaemonSet old-ds was declared at the start
 	FaultsInjected int
 	Facts          map[string]int
 	CloseSyncs     int // replica-set syncs requested less than reconcileFrequency after the previous one
@@ -134,6 +135,7 @@ func (w *World) addNode() string {
 // addMigration declares a migration from the DaemonSet "old-ds" for the first EDS: pods owned by it,
 // and - to tell them apart - pods with the very same labels owned by another DaemonSet or by nobody.
 func (w *World) addMigration() {
+	w.Migrated = true
 	k := w.EDS[0]
 	_ = w.C.SetEDSAnnotation(k.Namespace, k.Name, oracle.AnnOldDaemonset, "old-ds")
 	w.C.Add(&appsv1.DaemonSet{ObjectMeta: metav1.ObjectMeta{Namespace: k.Namespace, Name: "old-ds", UID: "old-ds-uid"}, Spec: appsv1.DaemonSetSpec{Selector: &metav1.LabelSelector{MatchLabels: map[string]string{"app": "agent"}}}})
@@ -483,6 +485,35 @@ func (w *World) do(kind string) {
 		val := rapid.SampledFrom([]string{"true", "true", "false", "-", "yes"}).Draw(w.rt, "annVal")
 		w.AnnotFlips++
 		_ = w.C.SetEDSAnnotation(e.Namespace, e.Name, key, val)
+	case "ers-protect":
+		// some other component puts a finalizer on a replica set (foreground deletion, a protection controller): when
+		// the controller later deletes that set it stays around, terminating, until the finalizer is released
+		if rss := w.rsOf(w.pickEDS()); len(rss) > 0 {
+			rs := rss[rapid.IntRange(0, len(rss)-1).Draw(w.rt, "protectedRS")]
+			w.C.Tracef("replica set %s/%s gets finalizer verif/protect", rs.Namespace, rs.Name)
+			w.C.MutateERS(rs.Namespace, rs.Name, func(x *edsv1.ExtendedDaemonSetReplicaSet) {
+				for _, f := range x.Finalizers {
+					if f == "verif/protect" {
+						return
+					}
+				}
+				x.Finalizers = append(x.Finalizers, "verif/protect")
+			})
+		}
+	case "ers-release":
+		w.releaseReplicaSets()
+	case "migration-toggle":
+		// the user ends (or re-declares) the migration from the old DaemonSet: the annotation goes away while
+		// pods of that DaemonSet may still be running
+		e := w.EDS[0]
+		if cur := w.C.EDS(e.Namespace, e.Name); cur != nil && w.Migrated {
+			if _, on := cur.Annotations[oracle.AnnOldDaemonset]; on {
+				_ = w.C.SetEDSAnnotation(e.Namespace, e.Name, oracle.AnnOldDaemonset, "-")
+			} else {
+				_ = w.C.SetEDSAnnotation(e.Namespace, e.Name, oracle.AnnOldDaemonset, "old-ds")
+			}
+			w.AnnotFlips++
+		}
 	case "eds-relabel":
 		// metadata.labels of the ExtendedDaemonSet change (a chart version bump, a team label...)
 		e := w.pickEDS()
@@ -609,6 +640,35 @@ func (w *World) editTemplate(e types.NamespacedName, l byte) {
 	w.LettersSeen = append(w.LettersSeen, l)
 	w.C.Tracef("eds %s/%s template := %c", e.Namespace, e.Name, l)
 	_ = w.C.EditEDS(e.Namespace, e.Name, func(x *edsv1.ExtendedDaemonSet) { x.Spec.Template = gen.LetterTemplate(l) })
+}
+
+// releaseReplicaSets removes the protection finalizer everywhere; replica sets that were already deleted vanish.
+func (w *World) releaseReplicaSets() {
+	for _, rs := range w.C.AllERS() {
+		has := false
+		for _, f := range rs.Finalizers {
+			if f == "verif/protect" {
+				has = true
+			}
+		}
+		if !has {
+			continue
+		}
+		w.C.Tracef("replica set %s/%s finalizer released", rs.Namespace, rs.Name)
+		if rs.DeletionTimestamp != nil {
+			w.C.DeleteERS(rs.Namespace, rs.Name)
+			continue
+		}
+		w.C.MutateERS(rs.Namespace, rs.Name, func(x *edsv1.ExtendedDaemonSetReplicaSet) {
+			var keep []string
+			for _, f := range x.Finalizers {
+				if f != "verif/protect" {
+					keep = append(keep, f)
+				}
+			}
+			x.Finalizers = keep
+		})
+	}
 }
 
 // defaultWeights is a balanced mix for general histories.
